@@ -104,6 +104,14 @@ CHECKS = {
         "reported with shrink 1, the harness warps an image of unique ids with GDAL (nearest) in one of 8 dtypes incl. int8/bool, and TLC itself performs the paste from the logged plan (mirroring included) and "
         "requires pixel identity with the GDAL image, and checks GDAL against the first-principles nearest-neighbour model.",
    ref="5/C10", note=TB + "GDAL nearest-neighbour is the oracle named by the property; exact half-pixel ties are skipped (GDAL-defined)"),
+ "C12": dict(
+   technique="TLA+ model of tile footprints, exact separating-axis overlap and first-principles tile dependency need (TileQuery), linear-path transcription checked complete by TLC; real tiles()/range_from_bbox()/grid_intersect() results validated by TLC",
+   text="Tile footprints are integer quadrilaterals; TLC decides overlap with lattice query polygons exactly (separating axes) and defines Needs(d, s) from pixel centres in exact rationals. TLC checks that the "
+        "transcription of the linear dependency path (outward rounding, clamp, tile lookup) lists every needed source tile for all scale+translation pairs of the domain, and emits query and pair cases. The real "
+        "GeoboxTiles is queried with geometries (same and exact-translation CRS), bounding boxes and range_from_bbox on 5 base grids x 4 tilings; the real grid_intersect is run on tiled pairs through the linear "
+        "and the general (footprint) path, same CRS and cross CRS; TLC requires every intersecting tile returned, no strictly disjoint tile for geometry queries, every needed source tile listed, no error and "
+        "no dependency at all for rasters that do not overlap.",
+   ref="5/C12", note=TB + "zero-area contacts are free; shapely predicates are never used as an oracle; cross-CRS through the exact tmerc family"),
 }
 
 NOT_YET = "check not built yet (work in progress); see DESIGN.md"
